@@ -73,6 +73,9 @@ def cases(tier, seed):
                 for a in range(place, place + w + ds):
                     ops += ["ps.poke %d %02x" % (a, rnd.getrandbits(8)), "ps.validate", "ps.store %s" % data]
                 ops += ["ps.reset %02x" % rnd.getrandbits(8), "ps.validate", "ps.fetch", "ps.store %s" % data, "ps.validate"]
+                # partial stores (also empty ones) on a medium whose checksum does NOT match: a successful store leaves a valid image
+                for (o, l) in [(0, 0), (ds, 0), (ds // 2, 0), (0, 1), (ds - 1, 1)]:
+                    ops += ["ps.reset %02x" % rnd.choice([0xff, 0x00, 0x5a]), "ps.storepart %s %d" % (rhex(rnd, l), o), "ps.validate", "ps.fetch"]
                 cs.append(Case("g%d" % n, ops, ("grid", kind)))
                 n += 1
     return cs
